@@ -219,7 +219,7 @@ func (c *Ctx) Finish(level string) int {
 			"cross_reference":     c.CrossRef,
 		},
 	}
-	if len(c.Overlay) == 0 || os.Getenv("VERIF_WRITE_EVIDENCE") == "1" {
+	if (len(c.Overlay) == 0 || os.Getenv("VERIF_WRITE_EVIDENCE") == "1") && os.Getenv("VERIF_NO_EVIDENCE") != "1" {
 		dir := filepath.Join(verifDir(), "evidence")
 		os.MkdirAll(dir, 0o755)
 		b, _ := json.MarshalIndent(ev, "", " ")
